@@ -73,6 +73,7 @@ pub fn replay(prop: &'static str, path: &str) -> i32 {
         "C15" => Box::new(c15::replay),
         "C16" => Box::new(c16::replay),
         "C17" => Box::new(c17::replay),
+        "C18" => Box::new(c18::replay),
         "C19" => Box::new(c19::replay),
         "C20" => Box::new(c20::replay),
         _ => {
@@ -80,7 +81,9 @@ pub fn replay(prop: &'static str, path: &str) -> i32 {
             return 2;
         }
     };
-    replay_report(prop, path, &*f)
+    // cases of the shared cross-driver layer are replayed by that layer
+    let g = move |c: &J| crate::drivers::replay_any(c).unwrap_or_else(|| f(c));
+    replay_report(prop, path, &g)
 }
 
 pub fn child_main(args: &[String]) -> i32 {
